@@ -108,3 +108,5 @@ def run(repo, chk):
     build_precedence_obligations(repo, chk, "R03.2", "context values come from the matched outer activation, not from a same-named variable deeper down")
     from .shared import fork_obligations
     fork_obligations(repo, chk, "R03.2", "each way the path matches keeps its own focus captures")
+    from .shared import call_extension_obligations
+    call_extension_obligations(repo, chk, "R03.3")
